@@ -278,3 +278,22 @@ CHECKS["C12"] = {
                   "precomputed table equals the table size (the condition whose violation is a backend assertion failure on Ristretto).",
     "level_note": "Held on the executed combinations. Trusted: harness bookkeeping.",
 }
+
+CHECKS["C13"] = {
+    "title": "Every blinding nonce in a proof is fresh and unpredictable",
+    "level": "exploration",
+    "technique": "runtime monitoring: nonces read back as coordinates of the library prover's proof points over the free-module group, cross-checked with the transcript-RNG draws logged at the merlin boundary and with an independent implementation of the seed-nonce derivation; fault-injected external RNGs",
+    "design_ref": "DESIGN.md section 4 C13",
+    "legs": [{"name": "fm", "shards": 16}],
+    "rule": "one case = one proof produced by the real prover over the free-module group (lattice configuration x seeded/unseeded x external RNG in {healthy, healthy', two fault models}) whose 2 + d*(3 + 2*rounds) "
+            "nonces were all extracted and consistency-checked (B[H] = r*y*s); distinct = distinct (instance, RNG model)",
+    "require": {"quick": {"proofs_inspected": 1500, "nonces_extracted": 40000, "seed_nonces_compared": 4000, "rng_draw_sets_compared": 1500, "seeded_run_pairs": 50},
+                "thorough": {"proofs_inspected": 15000, "nonces_extracted": 400000, "seed_nonces_compared": 40000, "rng_draw_sets_compared": 15000, "seeded_run_pairs": 800}},
+    "assumptions": COMMON_ASSUMPTIONS + ["no Ristretto leg is possible (nonces cannot be read off curve points); the prover is group-generic code, which is what makes the free-module observation representative",
+                                         "'unpredictable' is observed as: distinct within a proof, never repeated across differing runs (per shard), equal to the transcript-RNG draws, and (C14) keyed by the witness"],
+    "level_text": "Reads every nonce of real proofs (alpha_k, dL_jk, dR_jk, d_k, eta_k from the blinding-generator coordinates of A, L_j, R_j, A1, B; r and s from A1's coordinates on the first vector "
+                  "generators and the logged challenges): all non-zero and pairwise distinct within a proof; without a seed the values never repeat across runs and equal, as a set, the scalars drawn from the "
+                  "transcript RNG; with a seed the seed-derived ones equal the documented Blake2b derivation exactly (independent implementation) while r and s still come from the RNG and differ between runs; "
+                  "external RNG healthy, all-zero, all-ones, short-period and counter.",
+    "level_note": "Held on the inspected proofs. Trusted: FmPoint coordinate extraction (self-checked via B[H] = r*y*s), refbp nonce derivation.",
+}
